@@ -17,6 +17,7 @@ import numpy as np
 
 from omv.core import fingerprint
 from omv.ref import affine as af
+from omv.ref import qphist
 from omv.ref import qpspec
 
 PROPERTY = 'C21'
@@ -209,6 +210,12 @@ class Monitor:
         self.last_obj_x = None
         self.captured = None
         self.cons_by_key = {c['key']: c for c in ref.cons}
+        self.args_label = None  # mechanism seen in the arguments of scipy.optimize.minimize (_arguments_label)
+
+    def uninstall(self):
+        """drop the wrappers (instance attributes) so that the driver can be monitored again in a later run."""
+        for nm in ('_objfunc', '_con_val_func', '_confunc', '_gradfunc', '_congradfunc'):
+            self.drv.__dict__.pop(nm, None)
 
     def install(self):
         drv = self.drv
@@ -334,6 +341,8 @@ class Monitor:
             return '%s:objective-gradient-callback-mismatch' % style
         if self.obj_wrong:
             return '%s:objective-callback-mismatch' % style
+        if self.args_label:
+            return '%s:%s' % (style, self.args_label)
         return None
 
     # ---- what was handed to scipy.optimize.minimize ------------------------------------------
@@ -506,52 +515,97 @@ def classify_element(opt, mon, c, k, side, linrep):
     return None if lab is None else lab + ':element-violated'
 
 
-def _truly_feasible_start(ref, z0, only_linear=True):
+def _truly_feasible_start(ref, z0, only_linear=True, slack=-1e-9, with_bounds=False):
+    """The start satisfies the linear constraints (and the design-variable bounds) with the relative
+    slack `slack` (negative = may violate them by that much)."""
     g = ref.g(z0)
-    for c in ref.cons:
-        if only_linear and not c['d'].get('linear'):
-            continue
-        vd = af.to_units(g[c['rows']], c['munits'], c['units'])
+    vois = [(c, g[c['rows']]) for c in ref.cons if c['d'].get('linear') or not only_linear]
+    if with_bounds:
+        vois += [(d, np.asarray(z0, float)[d['pos']]) for d in ref.dvs]
+    for c, vm in vois:
+        vd = af.to_units(vm, c['munits'], c['units'])
         lo, hi = ref.bounds(c)
-        if np.any(vd < lo - 1e-9 * (1 + np.abs(lo))) or np.any(vd > hi + 1e-9 * (1 + np.abs(hi))):
+        s, a = af.scaler_adder(c['sc'], c['size'])
+        # judged in the optimizer's space, where scipy tests it
+        vs, los, his = (vd + a) * s, (lo + a) * s, (hi + a) * s
+        los = np.where(lo <= -af.INF_BOUND, -np.inf, los)
+        his = np.where(hi >= af.INF_BOUND, np.inf, his)
+        los, his = np.minimum(los, his), np.maximum(los, his)
+        if np.any(vs < los + slack * (1 + np.abs(los))) or np.any(vs > his - slack * (1 + np.abs(his))):
             return False
     return True
 
 
-def judge(case, acc):
-    import openmdao.api as om   # noqa
-    import openmdao.drivers.scipy_optimizer as so
-    from omv.gen import qpmodel
-    spec = case['spec']
-    opt = case['opt']
-    variant = case['variant']
-    ref = qpspec.RefModel(spec)
-    st = qpspec.structure(spec)
-    fp = fingerprint({'st': st, 'opt': opt, 'variant': variant})
+def _guards(ref, spec, opt, acc):
+    """-> exact solution, or None after acc.skip (problem outside the domain the oracle covers)."""
     has_eq = any(c.get('equals') is not None for c in spec['cons'])
-    has_lin = any(c.get('linear') for c in spec['cons'])
-    neg = variant.startswith('neg')
     if has_eq and opt not in EQ_OPTS:
         acc.skip('equality-not-supported-by-optimizer')
-        return
+        return None
     if not well_scaled(ref):
         acc.skip('ill-scaled-in-optimizer-space')
-        return
+        return None
     ex = ref.exact()
     if ex is None:
         acc.skip('reference-infeasible')
-        return
+        return None
     if max(ex['qp']['kkt']) > 1e-8:
         acc.skip('reference-kkt-not-certified')
+        return None
+    return ex
+
+
+def judge(case, acc):
+    if case.get('stages') is not None:
+        return judge_history(case, acc)
+    import openmdao.api as om   # noqa
+    from omv.gen import qpmodel
+    opt = case['opt']
+    variant = case['variant']
+    spec = qphist.effective(case['spec'])
+    ref = qpspec.RefModel(spec)
+    fp = fingerprint({'st': qpspec.structure(spec), 'opt': opt, 'variant': variant})
+    ex = _guards(ref, spec, opt, acc)
+    if ex is None:
         return
-    cell = 'cell:%s/%s/%s' % (opt, variant, 'eq' if has_eq else ('lin' if has_lin else 'nl'))
     drv = make_driver(opt)
     p = None
-    orig_min = so.minimize
     try:
-        p, comp = qpmodel.build(spec, driver=drv)
+        p, comp = qpmodel.build(case['spec'], driver=drv)
         p.final_setup()
+        run_and_judge(p, drv, spec, ref, ex, opt, variant, case, acc, fp)
+    finally:
+        if p is not None:
+            try:
+                p.cleanup()
+            except Exception:
+                pass
+
+
+def run_and_judge(p, drv, spec, ref, ex, opt, variant, case, acc, fp, pre='', warm=False):
+    """One run_driver() of `p` (set up, start point already set) judged against the reference `ref` of the
+    plain spec `spec` (start point spec['x0']).  `pre` is prepended to every mechanism key.
+    -> {'status': raised|failed|skip|ok|viol, 'mon': Monitor, 'z': reported design or None}"""
+    import openmdao.drivers.scipy_optimizer as so
+    from omv.gen import qpmodel
+    has_eq = any(c.get('equals') is not None for c in spec['cons'])
+    has_lin = any(c.get('linear') for c in spec['cons'])
+    neg = variant.startswith('neg')
+    cell = 'cell:%s/%s/%s' % (opt, variant, 'eq' if has_eq else ('lin' if has_lin else 'nl'))
+    orig_min = so.minimize
+    info = {'status': None, 'mon': None, 'z': None}
+
+    def viol(key, what, **kw):
+        info['status'] = 'viol'
+        acc.viol(pre + key, what, case, fp=fp, **kw)
+
+    def skip(reason):
+        info['status'] = 'skip'
+        acc.skip(reason)
+
+    try:
         mon = Monitor(drv, ref, spec['x0'], acc)
+        info['mon'] = mon
         mon.install()
 
         def spy(fun, x0, **kw):
@@ -565,6 +619,13 @@ def judge(case, acc):
             where = _where(e)
             msg = str(e)
             lin_tc = has_lin and opt == 'trust-constr'
+            info['status'] = 'raised'
+            if warm and opt == 'trust-constr' and 'infeasible' in msg and \
+                    not _truly_feasible_start(ref, ref.x0, slack=1e-9, with_bounds=True):
+                # a run started where the previous one ended: a point ON an active bound / linear
+                # constraint is outside it by round-off as often as not, and scipy's keep_feasible refuses it
+                acc.skip('trust-constr-keep_feasible-refuses-warm-start-on-the-boundary')
+                return info
             if neg:
                 key = 'neg-scaler:%s:raises:%s@%s' % (variant, type(e).__name__, where)
             elif lin_tc:
@@ -576,23 +637,34 @@ def judge(case, acc):
                     # keep_feasible=True is how the driver documents it passes linear constraints; scipy
                     # then (loudly) refuses a start that really violates them
                     acc.skip('trust-constr-linear-constraint-refuses-truly-infeasible-start')
-                    return
+                    return info
                 key = 'run_driver-raises:new-style-linear-constraint:%s:%s@%s' % (
                     mech or 'correctly-posed', type(e).__name__, where)
             else:
                 key = 'run_driver-raises:%s:%s@%s:%s' % (opt, type(e).__name__, where, _stratum(spec))
-            acc.viol(key, '%s: %s' % (type(e).__name__, msg[:240]), case, fp=fp)
-            return
+            viol(key, '%s: %s' % (type(e).__name__, msg[:240]))
+            info['status'] = 'raised'
+            return info
         finally:
             so.minimize = orig_min
+            mon.uninstall()
         success = bool(drv.result.success) and not drv.fail
         acc.count(cell)
         if mon.stale:
             acc.count('obs:runs-with-stale-constraint-values:' + opt)
+        style = 'new-style' if opt in NEW_STYLE else 'old-style'
+        if not neg:
+            # what was handed to scipy.optimize.minimize, against the declaration (every run, not only when
+            # a violation needs an explanation: a stale bound that is too tight only costs optimality)
+            mon.args_label = _arguments_label(mon, ref, opt, acc)
+        lab = mon.label(style)
+        info['lab'] = lab
+        info['success'] = success
         if not success:
             acc.count('obs:reported-failure:' + opt)
-            acc.skip('optimizer-reported-failure')
-            return
+            skip('optimizer-reported-failure')
+            info['status'] = 'failed'
+            return info
         acc.count('obs:success:' + opt)
         res = drv._scipy_optimize_result
         z_model = qpmodel.get_z(p, spec)
@@ -610,7 +682,7 @@ def judge(case, acc):
             key = '%s:model-state-differs-from-returned-x' % opt
             bad.append((key, 'model is left at z=%s but the optimizer returned (unscaled) %s'
                         % (z_model.tolist(), z.tolist())))
-        lab = mon.label('new-style' if opt in NEW_STYLE else 'old-style')
+        info['z'] = z
         if lab:
             acc.count('obs:anomaly:%s%s' % ('neg-scaler-stratum:' if neg else '', lab))
         # ---- guard for trust-constr: only judge what scipy itself claims converged
@@ -758,19 +830,252 @@ def judge(case, acc):
                 if key in seen:
                     continue
                 seen.add(key)
-                acc.viol(key, what, case, fp=fp, new_case=first)
+                viol(key, what, new_case=first)
                 first = False
         elif blamed_scipy:
-            acc.skip('scipy-optimizer-unreliable-on-correctly-posed-problem')
+            skip('scipy-optimizer-unreliable-on-correctly-posed-problem')
         else:
+            info['status'] = 'ok'
             acc.ok(fp, sample=case if acc.judged % 97 == 0 else None)
+        return info
     finally:
         so.minimize = orig_min
-        if p is not None:
+
+
+def _bounds_kwargs(v, con):
+    """kwargs for set_design_var_options / set_constraint_options that replace ALL bounds by those of `v`."""
+    from omv.gen.qpmodel import _b
+    if con and v.get('equals') is not None:
+        return {'equals': _b(v['equals'])}
+    return {'lower': _b(v.get('lower')), 'upper': _b(v.get('upper'))}
+
+
+def apply_changes(p, comp, new, st, acc, viol):
+    """Make the changes of stage `st` on the live Problem (`new` = the spec after the changes)."""
+    from omv.gen import qpmodel
+    model = p.model
+    sc = st.get('sc')
+    bd = st.get('bounds')
+    for grp, setter in (('dvs', model.set_design_var_options), ('cons', model.set_constraint_options)):
+        for i, v in enumerate(new[grp]):
+            kw = {}
+            if bd and bd[grp][i] != 'keep':
+                kw.update(_bounds_kwargs(v, grp == 'cons'))
+                acc.count('obs:history-change:%s-bounds' % grp)
+            if sc and sc[grp][i] != 'keep':
+                kw.update(qpmodel.set_options_kwargs(v.get('sc')))
+                acc.count('obs:history-change:%s-scaling' % grp)
+            if kw:
+                setter(v.get('alias') or v['name'], **kw)
+    if sc and sc['obj'] != 'keep':
+        kw = qpmodel.set_options_kwargs(new['obj'].get('sc'))
+        acc.count('obs:history-change:obj-scaling')
+        try:
+            model.set_objective_options('f', **kw)
+        except TypeError as e:
+            if len(kw) != 1:
+                raise
+            # naming one member of a pair is what the two sibling methods accept and what the docstring offers
+            viol('set_objective_options-with-one-of-%s-raises:%s@%s' % (
+                'scaler/adder' if ('scaler' in kw or 'adder' in kw) else 'ref/ref0', type(e).__name__, _where(e)),
+                '%s: %s' % (type(e).__name__, str(e)[:200]), new_case=False)
+            full = dict({'scaler': 1.0, 'adder': 0.0} if ('scaler' in kw or 'adder' in kw) else
+                        {'ref': 1.0, 'ref0': 0.0}, **kw)
+            model.set_objective_options('f', **full)       # same scaling, both members named
+    if st.get('remodel'):
+        comp.set_data(new)
+        acc.count('obs:history-change:remodel')
+    if st.get('resetup'):
+        p.setup()
+        acc.count('obs:history-change:resetup')
+    if 'p' in st or st.get('resetup'):
+        p.set_val('p', float(new['par']['p']))
+        if 'p' in st:
+            acc.count('obs:history-change:param')
+
+
+def _cap_bounds(b):
+    if b is None:
+        return None
+    if hasattr(b, 'lb'):
+        return np.asarray(b.lb, float), np.asarray(b.ub, float)
+    return (np.array([-np.inf if t[0] is None else t[0] for t in b], float),
+            np.array([np.inf if t[1] is None else t[1] for t in b], float))
+
+
+def _close(a, b):
+    a = np.atleast_1d(np.asarray(a, float))
+    b = np.atleast_1d(np.asarray(b, float))
+    if a.shape != b.shape:
+        return False
+    fin = np.isfinite(b)
+    if not np.array_equal(np.isfinite(a), fin) or not np.array_equal(a[~fin], b[~fin]):
+        return False
+    sc = 1.0 + (np.max(np.abs(b[fin])) if fin.any() else 0.0)
+    return bool(np.all(np.abs(a[fin] - b[fin]) <= 1e-9 * sc))
+
+
+def arguments_differ(ca, cb):
+    """First argument of scipy.optimize.minimize that differs between two runs of the same optimizer-space
+    problem from the same start (None = all equal within 1e-9 relative)."""
+    if not _close(ca['x0'], cb['x0']):
+        return 'x0'
+    ba, bb = _cap_bounds(ca.get('bounds')), _cap_bounds(cb.get('bounds'))
+    if (ba is None) != (bb is None) or (ba is not None and not (_close(ba[0], bb[0]) and _close(ba[1], bb[1]))):
+        return 'bounds'
+    la, lb_ = list(ca.get('constraints') or []), list(cb.get('constraints') or [])
+    if len(la) != len(lb_):
+        return 'number-of-constraints'
+    for x, y in zip(la, lb_):
+        if type(x).__name__ != type(y).__name__:
+            return 'constraint-type'
+        if isinstance(x, dict):
+            if x.get('type') != y.get('type') or list(x.get('args') or []) != list(y.get('args') or []):
+                return 'constraint-dict'
+            continue
+        if hasattr(x, 'A'):
+            if not _close(x.A, y.A):
+                return 'linear-constraint-jacobian'
+            n = np.atleast_2d(np.asarray(y.A)).shape[0]
+            if not (_close(np.asarray(x.lb, float) * np.ones(n), np.asarray(y.lb, float) * np.ones(n)) and
+                    _close(np.asarray(x.ub, float) * np.ones(n), np.asarray(y.ub, float) * np.ones(n))):
+                return 'linear-constraint-bounds'
+        elif not (_close(x.lb, y.lb) and _close(x.ub, y.ub)):
+            return 'constraint-bounds'
+    if ca.get('tol') != cb.get('tol'):
+        return 'tol'
+    oa, ob = dict(ca.get('options') or {}), dict(cb.get('options') or {})
+    if sorted(oa) != sorted(ob) or any(oa[k] != ob[k] for k in oa):
+        return 'options'
+    return None
+
+
+def judge_history(case, acc):
+    """The same Problem/driver run len(stages)+1 times with the changes of omv/ref/qphist.py in between; every
+    run is judged by the oracle of the single runs for the values then current; the last one is also compared
+    with a fresh Problem declared directly with the final values and started from the same point."""
+    import openmdao.api as om   # noqa
+    from omv.gen import qpmodel
+    opt = case['opt']
+    cur = copy.deepcopy(case['spec'])
+    eff = qphist.effective(cur)
+    ref = qpspec.RefModel(eff)
+    fp = fingerprint({'st': qpspec.structure(eff), 'opt': opt, 'variant': 'hist', 'stage': 0})
+    ex = _guards(ref, eff, opt, acc)
+    if ex is None:
+        return
+    drv = make_driver(opt)
+    p = p2 = None
+    try:
+        p, comp = qpmodel.build(cur, driver=drv)
+        p.final_setup()
+        info = run_and_judge(p, drv, eff, ref, ex, opt, 'hist0', case, acc, fp)
+        pre = ''
+        reached = info['mon'] is not None and info['mon'].captured is not None
+        for k, st in enumerate(case['stages'], 1):
+            if info['status'] == 'raised':
+                acc.skip('history-abandoned-after-exception')
+                return
+            pre = 'rerun-after-%s:' % '+'.join(st['kinds'])
+            new = qphist.apply_stage(cur, st)
+            fp = fingerprint({'st': qpspec.structure(qphist.effective(new)), 'opt': opt, 'variant': 'hist',
+                              'stage': k, 'kinds': st['kinds'], 'warm': st['warm']})
+            z_prev = qpmodel.get_z(p, cur)
+            nviol = [0]
+
+            def viol(key, what, **kw):
+                nviol[0] += 1
+                acc.viol(pre + key, what, case, fp=fp, **kw)
             try:
-                p.cleanup()
-            except Exception:
-                pass
+                apply_changes(p, comp, new, st, acc, viol)
+            except Exception as e:   # noqa
+                acc.viol(pre + 'change-between-runs-raises:%s@%s' % (type(e).__name__, _where(e)),
+                         '%s: %s' % (type(e).__name__, str(e)[:240]), case, fp=fp)
+                return
+            warm = bool(st['warm'] and np.all(np.isfinite(z_prev)) and qphist.inside_dv_bounds(new, z_prev))
+            z_start = z_prev if warm else np.asarray(st['x0'], float)
+            if st.get('resetup') or not warm:
+                qpmodel.set_z(p, new, z_start)
+            new['x0'] = [float(v) for v in z_start]
+            acc.count('obs:history-start:%s' % ('warm' if warm else 'set'))
+            cur = new
+            eff = qphist.effective(cur)
+            ref = qpspec.RefModel(eff)
+            ex = _guards(ref, eff, opt, acc)
+            if ex is None:
+                return
+            for kd in st['kinds']:
+                acc.count('cell:history/%s/%s' % (opt, kd))
+            info = run_and_judge(p, drv, eff, ref, ex, opt, 'hist', case, acc, fp, pre=pre, warm=warm)
+            acc.count('obs:history-rerun-judged' if info['status'] in ('ok', 'viol') else
+                      'obs:history-rerun-not-judged')
+            reached = info['mon'] is not None and info['mon'].captured is not None
+        if not case['stages'] or not reached or info['status'] == 'raised':
+            return
+        # ---- the same final problem, declared directly, in a fresh Problem with a fresh driver
+        drv2 = make_driver(opt)
+        p2, _ = qpmodel.build(cur, driver=drv2)
+        p2.final_setup()
+        fp2 = fingerprint({'st': qpspec.structure(eff), 'opt': opt, 'variant': 'fresh'})
+        info2 = run_and_judge(p2, drv2, eff, ref, ex, opt, 'fresh', case, acc, fp2)
+        if info2['mon'] is None or info2['mon'].captured is None:
+            return
+        acc.count('obs:history-compared-with-fresh-problem')
+        diff = arguments_differ(info['mon'].captured, info2['mon'].captured)
+        if diff:
+            acc.viol(pre + 'minimize-arguments-differ-from-fresh-problem:%s' % diff,
+                     'the last run of the history hands scipy.optimize.minimize a different %s than a fresh '
+                     'Problem declared with the final values and started from the same point' % diff,
+                     case, fp=fp, new_case=False)
+        elif info.get('success') is False and info2.get('success') and info.get('lab') and not info2.get('lab'):
+            acc.viol(pre + info['lab'] + ':optimizer-fails-while-fresh-problem-succeeds',
+                     'the run after the change fails with wrong callback values; a fresh Problem with the final '
+                     'values succeeds from the same start', case, fp=fp, new_case=False)
+        elif info.get('success') and info2.get('success') and info['z'] is not None and info2['z'] is not None:
+            d = float(np.max(np.abs(info['z'] - info2['z'])))
+            acc.count('obs:history-design-vs-fresh:%s' % ('identical' if d == 0.0 else
+                                                          ('le1e-6' if d <= 1e-6 else 'gt1e-6')))
+    finally:
+        for q in (p, p2):
+            if q is not None:
+                try:
+                    q.cleanup()
+                except Exception:
+                    pass
+
+
+def _arguments_label(mon, ref, opt, acc):
+    """Design-variable bounds and (new style) constraint bounds handed to scipy.optimize.minimize against the
+    image of the declared ones -> mechanism or None."""
+    cap = mon.captured
+    if cap is None:
+        return None
+    acc.count('obs:minimize-bounds-compared')
+    if not _bounds_ok(mon, ref):
+        return 'desvar-bounds-passed-to-optimizer-differ-from-declared'
+    if opt not in NEW_STYLE:
+        return None
+    objs = list(cap.get('constraints') or [])
+    i = 0
+    for c in ref.cons:
+        if c['d'].get('linear') and opt == 'trust-constr':
+            i += 1          # one LinearConstraint: see Monitor.linear_constraint_report
+            continue
+        lo, hi = mon.sr.lo[c['key']], mon.sr.hi[c['key']]
+        for k in range(c['size']):
+            if i >= len(objs) or type(objs[i]).__name__ != 'NonlinearConstraint':
+                return None  # the layout itself is judged through Monitor.sides
+            for got, want in ((objs[i].lb, lo[k]), (objs[i].ub, hi[k])):
+                got = float(np.ravel(np.asarray(got, float))[0])
+                if abs(want) >= af.INF_BOUND:
+                    wrong = abs(got) < af.INF_BOUND / 10
+                else:
+                    wrong = not abs(got - want) <= 1e-9 * (1.0 + abs(want))
+                if wrong:
+                    return 'constraint-bounds-passed-to-optimizer-differ-from-declared'
+            i += 1
+    acc.count('obs:minimize-constraint-bounds-compared')
+    return None
 
 
 _MECH_ORDER = ['array-constraint-rejected-before-minimize', 'rejected-before-minimize', 'not-passed-to-optimizer',
@@ -860,10 +1165,37 @@ def shards(tier, seed):
     return [{'seed': seed * 100003 + 7919 * k + 11, 'n': nprob, 'tier': tier} for k in range(nsh)]
 
 
+def _acceptable(eff):
+    """a later stage of a history must stay in the domain the single runs are drawn from."""
+    ref = qpspec.RefModel(eff)
+    if not well_scaled(ref):
+        return False
+    ex = ref.exact()
+    return ex is not None and max(ex['qp']['kkt']) <= 1e-8
+
+
+def gen_histories(rng, base):
+    """One problem -> one multi-run case per optimizer (instead of its 3 scaling variants x optimizers)."""
+    spec0 = qphist.add_param(rng, base)
+    vs = variants(spec0, rng, with_neg=False)
+    out = []
+    for opt in OPTS:
+        _, s0 = vs[int(rng.integers(len(vs)))]
+        nst = 3 if rng.random() < 0.6 else 2
+        stages = qphist.gen_history(rng, s0, nst, opt in EQ_OPTS, MAG, _acceptable)
+        out.append({'spec': s0, 'opt': opt, 'variant': 'hist', 'stages': stages})
+    return out
+
+
 def run_shard(shard, acc):
     rng = np.random.default_rng(shard['seed'])
     for i in range(shard['n']):
         base = gen_base(rng)
+        if i % 3 == 1:
+            # history stratum: the same Problem/driver run 2-3 times with changes in between
+            for case in gen_histories(np.random.default_rng(int(rng.integers(2 ** 31))), base):
+                judge(case, acc)
+            continue
         vs = variants(base, rng, with_neg=(i % 3 == 0))
         for variant, spec in vs:
             for opt in OPTS:
